@@ -66,6 +66,10 @@ def search(ctx):
     if not ctx.build_harness("c12"):
         return
     focus = share_focus(ctx)
+    if focus and any(v.get("key", "").endswith(":" + c) or c in v.get("key", "") for v in ctx.impl_violations for c in focus):
+        # the correspondence run already produced a concrete history in the class the
+        # broken obligation points at
+        return
     if focus:
         # a lock / count / capture obligation is broken: hunt for a concrete history in
         # exactly those stress classes, escalating rounds, until found or the budget is used
